@@ -67,3 +67,28 @@ func specReadOnlyOperation(op string) bool {
 	}
 	return false
 }
+
+// verifOnlyConfiguredRangesAreTrusted (ghost scenario, bounded): whatever list of entries is configured - well-formed
+// CIDRs, bare addresses, out-of-range prefixes, garbage - a peer is a trusted proxy exactly when one of the well-formed
+// CIDR entries contains it (or no list was configured at all): a malformed entry never widens trust.
+func verifOnlyConfiguredRangesAreTrusted(picks []uint8, peerPick uint8) bool {
+	entries := []string{"10.0.0.0/8", "192.168.1.0/24", "10.0.0.5", "203.0.113.9", "10.0.0.0/33", "fd00::/8", "fd00::1", "not-a-cidr", "", "0.0.0.0/0", "172.16.0.0/12", "::1"}
+	peers := []string{"10.1.2.3", "192.168.1.77", "192.168.2.1", "198.51.100.7", "203.0.113.9", "fd00::1", "2001:db8::1", "::1", "127.0.0.1", "172.20.1.1"}
+	var list []string
+	for _, p := range picks {
+		list = append(list, entries[int(p)%len(entries)])
+	}
+	peer := peers[int(peerPick)%len(peers)]
+	got := isTrustedProxy(&peer, parseTrustedProxyCIDRs(list))
+	if len(list) == 0 {
+		return got // no list configured: every peer is trusted (documented)
+	}
+	want := false
+	ip := net.ParseIP(peer)
+	for _, e := range list {
+		if _, n, err := net.ParseCIDR(e); err == nil && n.Contains(ip) {
+			want = true
+		}
+	}
+	return got == want
+}
